@@ -3,6 +3,7 @@
 //! permutations with duplications / omissions, interleaved with subscription notifications, plain
 //! notifications and batch arrays; both id kinds; answers with the wrong id type.
 use jrpc_harness::client_mock::*;
+use jrpc_harness::client_spell::*;
 use jrpc_harness::common::*;
 use serde_json::Value;
 use std::collections::BTreeMap;
@@ -154,7 +155,7 @@ fn run_one(out: &mut Out, lines: &[String]) {
 			match w[1] {
 				"call" => orc.front_op(Kind::Call),
 				"subscribe" => orc.front_op(Kind::Subscribe),
-				"batch" => orc.front_op(Kind::Batch),
+				"batch" | "tbatch" => orc.front_op(Kind::Batch),
 				"regnotif" => orc.front_op(Kind::Reg),
 				"notify" => {}
 				_ => {}
@@ -165,7 +166,16 @@ fn run_one(out: &mut Out, lines: &[String]) {
 					verdict = Err(e);
 				}
 			}
-			let delivered = if w[1] == "deliver" { String::from_utf8(unhex(w[2])).ok() } else { None };
+			let delivered = if w[1] == "deliver" || w[1] == "deliverx" { String::from_utf8(unhex(w[2])).ok() } else { None };
+			if w[1] == "deliverx" {
+				// not a legal message of any kind: it must complete nothing and the client must not carry on as if
+				// nothing had happened
+				nontrivial = true;
+				out.count("near-miss.delivered");
+				if obs.fatal.is_none() {
+					verdict = Err(format!("a text that is no legal message was accepted: {:?} -> {}", delivered, obs.render()));
+				}
+			}
 			if let Some(d) = &delivered {
 				orc.delivered.push(d.clone());
 			}
@@ -230,7 +240,9 @@ fn idj(n: u64, str_ids: bool) -> String {
 fn answer(rng: &mut Rng, id: &str, tag: u64) -> String {
 	let ws = |rng: &mut Rng| if rng.chance(1, 10) { " " } else { "" };
 	let j = if rng.chance(1, 10) { "".to_string() } else { format!("\"jsonrpc\":{}\"2.0\",", ws(rng)) };
-	match rng.below(8) {
+	match rng.below(10) {
+		8 => format!("{{{j}\"id\":{id},\"result\":{}}}", odd_result(rng)),
+		9 => format!("{{{j}\"id\":{id},\"error\":{}}}", odd_error(rng)),
 		0 => format!("{{{j}\"id\":{id},\"error\":{{\"code\":-32000,\"message\":\"e{tag}\"}}}}"),
 		1 => format!("{{{j}\"id\":{id},\"error\":{{\"code\":{tag},\"message\":\"m\",\"data\":{{\"k\":[{tag}]}}}}}}"),
 		2 => format!("{{{j}\"result\":{{\"v\": {tag}}},\"id\":{id}}}"),
@@ -242,23 +254,25 @@ fn answer(rng: &mut Rng, id: &str, tag: u64) -> String {
 #[derive(Clone)]
 enum Open {
 	Call { id: u64 },
-	Sub { id: u64 },
+	Sub { id: u64, op: usize },
 	Batch { start: u64, n: u64 },
 }
 
 /// The text that correctly answers an open operation.
-fn correct_answer(rng: &mut Rng, o: &Open, str_ids: bool, subs: &mut Vec<String>) -> String {
+/// returns the text and, for an accepted subscribe, the JSON text of its subscription id
+fn correct_answer(rng: &mut Rng, o: &Open, str_ids: bool, subs: &mut Vec<String>) -> (String, Option<String>) {
 	match o {
-		Open::Call { id } => answer(rng, &idj(*id, str_ids), *id),
-		Open::Sub { id } => {
-			let sid = format!("S{}", id);
+		Open::Call { id } => (answer(rng, &idj(*id, str_ids), *id), None),
+		Open::Sub { id, .. } => {
+			// the second time: sometimes the server hands out an id it has used before
+			let sid = if !subs.is_empty() && rng.chance(1, 6) { rng.pick(subs).clone() } else { format!("S{}", id) };
 			subs.push(sid.clone());
 			if rng.chance(1, 6) {
-				format!("{{\"jsonrpc\":\"2.0\",\"id\":{},\"error\":{{\"code\":-32001,\"message\":\"refused\"}}}}", idj(*id, str_ids))
+				(format!("{{\"jsonrpc\":\"2.0\",\"id\":{},\"error\":{{\"code\":-32001,\"message\":\"refused\"}}}}", idj(*id, str_ids)), None)
 			} else if rng.chance(1, 8) {
-				format!("{{\"jsonrpc\":\"2.0\",\"id\":{},\"result\":{}}}", idj(*id, str_ids), id)
+				(format!("{{\"jsonrpc\":\"2.0\",\"id\":{},\"result\":{}}}", idj(*id, str_ids), id), Some(id.to_string()))
 			} else {
-				format!("{{\"jsonrpc\":\"2.0\",\"id\":{},\"result\":\"{sid}\"}}", idj(*id, str_ids))
+				(format!("{{\"jsonrpc\":\"2.0\",\"id\":{},\"result\":\"{sid}\"}}", idj(*id, str_ids)), Some(format!("\"{sid}\"")))
 			}
 		}
 		Open::Batch { start, n } => {
@@ -267,14 +281,14 @@ fn correct_answer(rng: &mut Rng, o: &Open, str_ids: bool, subs: &mut Vec<String>
 				let j = rng.below(i as u64 + 1) as usize;
 				es.swap(i, j);
 			}
-			format!("[{}]", es.join(","))
+			(format!("[{}]", es.join(",")), None)
 		}
 	}
 }
 
 fn noise(rng: &mut Rng, subs: &[String], next_id: u64, str_ids: bool, lethal: bool) -> String {
 	// kinds 5..=7 name an id nothing waits on: the client abandons the connection (C03 clause 2)
-	let pick = if lethal { rng.range(5, 7) } else if rng.chance(1, 12) { rng.range(5, 7) } else { *rng.pick(&[0u64, 1, 2, 3, 4, 8]) };
+	let pick = if lethal { *rng.pick(&[5u64, 6, 7, 9, 10]) } else if rng.chance(1, 12) { *rng.pick(&[5u64, 6, 7, 9, 10]) } else { *rng.pick(&[0u64, 1, 2, 3, 4, 8, 11, 12]) };
 	match pick {
 		0 => "{\"jsonrpc\":\"2.0\",\"method\":\"other\",\"params\":[1,2]}".into(),
 		1 => "{\"jsonrpc\":\"2.0\",\"method\":\"nparams\"}".into(),
@@ -299,6 +313,37 @@ fn noise(rng: &mut Rng, subs: &[String], next_id: u64, str_ids: bool, lethal: bo
 			answer(rng, &idj(n, str_ids), 888)
 		}
 		7 => answer(rng, "null", 999),
+		9 => {
+			// the number of a pending id spelled as another string: "+1", "01", "1 ", "", "1.0"
+			let n = rng.below(next_id.max(1));
+			let spelled = match rng.below(5) {
+				0 => format!("\"+{n}\""),
+				1 => format!("\"0{n}\""),
+				2 => format!("\"{n} \""),
+				3 => "\"\"".to_string(),
+				_ => format!("\"{n}.0\""),
+			};
+			answer(rng, &spelled, 666)
+		}
+		10 => {
+			// a pending id inside an array of one (a batch nobody sent)
+			let n = rng.below(next_id.max(1));
+			format!("[{}]", answer(rng, &idj(n + 1000, str_ids), 555))
+		}
+		11 => {
+			// notifications with every shape of `params`
+			let p = *rng.pick(&["", ",\"params\":null", ",\"params\":[]", ",\"params\":{}", ",\"params\":[1,[2],{\"three\":3}]", ",\"params\":{\"subscription\":true,\"result\":1}", ",\"params\":\"text\"", ",\"params\":7"]);
+			format!("{{\"jsonrpc\":\"2.0\",\"method\":\"other\"{p}}}")
+		}
+		12 => {
+			// subscription notification with the members of `params` in the other order / with extras
+			let s = if subs.is_empty() { "nobody".to_string() } else { rng.pick(subs).clone() };
+			match rng.below(3) {
+				0 => format!("{{\"method\":\"sub\",\"params\":{{\"result\":{},\"subscription\":\"{s}\"}},\"jsonrpc\":\"2.0\"}}", rng.below(100)),
+				1 => format!("{{\"jsonrpc\":\"2.0\",\"method\":\"anything\",\"params\":{{\"subscription\":\"{s}\",\"extra\":[1],\"result\":{}}}}}", rng.below(100)),
+				_ => format!("{{\"jsonrpc\":\"2.0\",\"method\":\"sub\",\"params\":{{\"subscription\":\"{s}\",\"result\":{}}}}}", odd_result(rng)),
+			}
+		}
 		_ => {
 			let s = if subs.is_empty() { "nobody".to_string() } else { rng.pick(subs).clone() };
 			format!("{{\"jsonrpc\":\"2.0\",\"method\":\"sub\",\"params\":{{\"subscription\":\"{s}\",\"error\":\"closed\"}}}}")
@@ -306,11 +351,14 @@ fn noise(rng: &mut Rng, subs: &[String], next_id: u64, str_ids: bool, lethal: bo
 	}
 }
 
-fn gen_case(rng: &mut Rng, caseno: u64, perm: Option<Vec<usize>>) -> Vec<String> {
+fn gen_case(rng: &mut Rng, out: &mut Out, caseno: u64, perm: Option<Vec<usize>>) -> Vec<String> {
 	let str_ids = rng.chance(1, 3);
 	let cap = rng.range(1, 4);
-	let mut lines = vec![format!("case {caseno} client {} {cap} 64", if str_ids { "str" } else { "num" })];
+	let fcap = if perm.is_some() { 64 } else { pick_fcap(rng, |k| out.count(k)) };
+	let opts = case_opts(rng, |k| out.count(k));
+	let mut lines = vec![format!("case {caseno} client {} {cap} {fcap}{opts}", if str_ids { "str" } else { "num" })];
 	let mut next_id = 0u64;
+	let mut next_op = 0usize;
 	let mut open: Vec<Open> = vec![];
 	let mut subs: Vec<String> = vec![];
 	let k = match &perm {
@@ -321,31 +369,64 @@ fn gen_case(rng: &mut Rng, caseno: u64, perm: Option<Vec<usize>>) -> Vec<String>
 	if gate_shut {
 		lines.push("cl gate shut".into());
 	}
+	if rng.chance(1, 10) {
+		lines.push("cl connected".into());
+	}
 	for _ in 0..k {
-		match if perm.is_some() { rng.below(6) } else { rng.below(10) } {
+		match if perm.is_some() { rng.below(6) } else { rng.below(13) } {
 			0..=5 => {
 				lines.push("cl call".into());
 				open.push(Open::Call { id: next_id });
 				next_id += 1;
+				next_op += 1;
 			}
 			6 | 7 => {
 				lines.push("cl subscribe".into());
-				open.push(Open::Sub { id: next_id });
+				open.push(Open::Sub { id: next_id, op: next_op });
 				next_id += 2;
+				next_op += 1;
 			}
 			8 => {
 				let n = rng.range(1, 3);
 				lines.push(format!("cl batch {n}"));
 				open.push(Open::Batch { start: next_id, n });
 				next_id += 1;
+				next_op += 1;
+				if rng.chance(1, 4) {
+					// the second time: an identical batch right behind the first
+					out.count("second.identical-batch");
+					lines.push(format!("cl batch {n}"));
+					open.push(Open::Batch { start: next_id, n });
+					next_id += 1;
+					next_op += 1;
+				}
 			}
-			_ => {
+			9 => {
 				lines.push("cl notify".into());
 				next_id += 1;
 			}
+			10 => {
+				// subscribe_to_method next to subscriptions, also for the method name subscription notifications carry
+				out.count("api.subscribe_to_method");
+				let m = *rng.pick(&["sub", "other", "m"]);
+				lines.push(format!("cl regnotif {}", hexs(m)));
+				next_op += 1;
+			}
+			11 => {
+				out.count("api.typed-batch");
+				let n = rng.range(1, 3);
+				lines.push(format!("cl tbatch {} {n}", rng.pick(&TYPED_KINDS)));
+				open.push(Open::Batch { start: next_id, n });
+				next_id += 1;
+				next_op += 1;
+			}
+			_ => {
+				lines.push("cl connected".into());
+			}
 		}
 		if perm.is_none() && rng.chance(1, 8) {
-			lines.push(format!("cl deliver {}", hexs(&noise(rng, &subs, next_id, str_ids, false))));
+			let t = noise(rng, &subs, next_id, str_ids, false);
+			lines.push(deliver_line(rng, &t, |k| out.count(k)));
 		}
 	}
 	if gate_shut && rng.chance(2, 3) {
@@ -368,27 +449,76 @@ fn gen_case(rng: &mut Rng, caseno: u64, perm: Option<Vec<usize>>) -> Vec<String>
 			continue; // omission
 		}
 		if rng.chance(1, 4) {
-			lines.push(format!("cl deliver {}", hexs(&noise(rng, &subs, next_id, str_ids, false))));
+			let t = noise(rng, &subs, next_id, str_ids, false);
+			lines.push(deliver_line(rng, &t, |k| out.count(k)));
 		}
-		let text = correct_answer(rng, &open[i], str_ids, &mut subs);
-		lines.push(format!("cl deliver {}", hexs(&text)));
+		let o = open[i].clone();
+		let (text, accepted) = correct_answer(rng, &o, str_ids, &mut subs);
+		lines.push(deliver_line(rng, &text, |k| out.count(k)));
 		if rng.chance(1, 25) {
 			lines.push(format!("cl deliver {}", hexs(&text))); // duplicated answer (kills the connection)
+		}
+		// the stream of an accepted subscription: items, then unsubscribe / drop, the server's answer, and again
+		if let (Some(sid), Open::Sub { id, op }, false) = (&accepted, &o, gate_shut) {
+			if rng.chance(1, 3) {
+				out.count("api.stream-ops");
+				if rng.chance(1, 2) {
+					let t = format!("{{\"jsonrpc\":\"2.0\",\"method\":\"sub\",\"params\":{{\"subscription\":{sid},\"result\":{}}}}}", odd_result(rng));
+					lines.push(deliver_line(rng, &t, |k| out.count(k)));
+					lines.push(format!("cl next {op}"));
+				}
+				lines.push(format!("cl {} {op}", if rng.chance(1, 2) { "unsub" } else { "drop" }));
+				if rng.chance(2, 3) {
+					let payload = if rng.chance(1, 3) { format!("\"error\":{}", odd_error(rng)) } else { "\"result\":true".to_string() };
+					let t = format!("{{\"jsonrpc\":\"2.0\",\"id\":{},{payload}}}", idj(id + 1, str_ids));
+					lines.push(deliver_line(rng, &t, |k| out.count(k)));
+				}
+				if rng.chance(1, 2) {
+					// the second time: subscribe again, the server reuses the subscription id
+					out.count("second.resubscribe");
+					lines.push("cl subscribe".into());
+					let t = format!("{{\"jsonrpc\":\"2.0\",\"id\":{},\"result\":{sid}}}", idj(next_id, str_ids));
+					next_id += 2;
+					next_op += 1;
+					lines.push(deliver_line(rng, &t, |k| out.count(k)));
+				}
+			}
 		}
 		if rng.chance(1, 10) {
 			lines.push("cl call".into());
 			open.push(Open::Call { id: next_id });
 			next_id += 1;
+			next_op += 1;
 		}
 	}
 	if gate_shut {
 		lines.push("cl gate open".into());
 	}
-	// finally, half of the cases: a message for an id nothing waits on
+	// finally, half of the cases: a message for an id nothing waits on, or a text that is no message at all;
+	// then the API once more on the connection the client has given up
 	if rng.chance(1, 2) {
-		lines.push(format!("cl deliver {}", hexs(&noise(rng, &subs, next_id, str_ids, true))));
+		if rng.chance(1, 2) {
+			lines.push(format!("cl deliver {}", hexs(&noise(rng, &subs, next_id, str_ids, true))));
+		} else {
+			let pending = if next_id > 0 { rng.below(next_id) } else { 0 };
+			let (name, text) = near_miss(rng, &idj(pending, str_ids));
+			out.count(name);
+			lines.push(format!("cl deliverx {}", hexs(&text)));
+		}
 		lines.push("cl call".into());
+		for _ in 0..rng.below(3) {
+			out.count("second.api-after-connection-given-up");
+			lines.push(match rng.below(6) {
+				0 => "cl connected".to_string(),
+				1 => "cl batch 2".to_string(),
+				2 => "cl subscribe".to_string(),
+				3 => "cl notify".to_string(),
+				4 => format!("cl regnotif {}", hexs("m")),
+				_ => "cl call".to_string(),
+			});
+		}
 	}
+	let _ = next_op;
 	lines
 }
 
@@ -408,12 +538,12 @@ fn main() {
 		for k in 1..=max_k {
 			for p in permutations(k) {
 				caseno += 1;
-				lines.extend(gen_case(&mut rng, caseno, Some(p)));
+				lines.extend(gen_case(&mut rng, &mut out, caseno, Some(p)));
 			}
 		}
 		for _ in 0..n {
 			caseno += 1;
-			lines.extend(gen_case(&mut rng, caseno, None));
+			lines.extend(gen_case(&mut rng, &mut out, caseno, None));
 		}
 	}
 	for case in split_cases(&lines) {
